@@ -399,6 +399,460 @@ def make_cmp_lp(ctx):
 # ----------------------------------------------------------------------------
 
 
+# ----------------------------------------------------------------------------
+# round 3: argument forms of every constructor / solve input, and call histories on one object
+
+
+def judge(ctx, inst, vstar, method, v, sigma, num_iter, cap, eps, replay, where):
+    """exact-oracle judgement of one (v, sigma) returned by `method`; `where` prefixes the finding key"""
+    tol9 = F(1, 10 ** 9)
+    scale = max(abs(x) for x in vstar)
+    slack = tol9 * (1 + scale)
+    v = [float(x) for x in v]
+    sigma = [int(x) for x in sigma]
+    if len(sigma) != inst.n or any(sigma[s] not in inst.feas[s] for s in range(inst.n)):
+        ctx.spec_fail("%s%s_infeasible_policy" % (where, method), "returned policy uses an infeasible action", replay)
+        return False
+    if len(v) != inst.n or not all(math.isfinite(x) for x in v):
+        ctx.spec_fail("%s%s_nonfinite_value" % (where, method), "returned value is not finite", replay)
+        return False
+    if num_iter >= cap:
+        return True
+    dv = dist(v, vstar)
+    ds = dist(inst.eval(sigma), vstar)
+    ok = True
+    if method in ("pi", "lp"):
+        if dv > slack:
+            ctx.spec_fail("%s%s_value_not_optimal" % (where, method), "|v - v*| = %.3e" % float(dv), replay)
+            ok = False
+        if ds > slack:
+            ctx.spec_fail("%s%s_policy_not_optimal" % (where, method), "|v_sigma - v*| = %.3e" % float(ds), replay)
+            ok = False
+    else:
+        if not dv < F(eps) / 2 + slack:
+            ctx.spec_fail("%s%s_value_not_within_half_eps" % (where, method),
+                          "|v - v*| = %.3e, eps/2 = %.3e" % (float(dv), float(eps) / 2), replay)
+            ok = False
+        if not ds <= F(eps) + slack:
+            ctx.spec_fail("%s%s_policy_not_eps_optimal" % (where, method),
+                          "|v_sigma - v*| = %.3e, eps = %.3e" % (float(ds), float(eps)), replay)
+            ok = False
+    return ok
+
+
+INDEX_KINDS = ["int8", "int16", "int32", "int64", "uint8", "uint16", "uint32", "uint64", "intp",
+               "list", "tuple", "strided"]
+ORDERS = ["sorted", "action-major", "reversed", "shuffled"]
+DENSE_KINDS = ["float64", "float32", "F-order", "non-contiguous", "list", "int-if-possible"]
+SPARSE_KINDS = [("csr", "int32"), ("csr", "int64"), ("csc", "int32"), ("coo", "int64"), ("lil", "int32"),
+                ("csc", "int64"), ("coo", "int32")]
+
+
+def as_index(vals, kind):
+    vals = [int(x) for x in vals]
+    if kind == "list":
+        return list(vals)
+    if kind == "tuple":
+        return tuple(vals)
+    if kind == "strided":
+        big = np.zeros(2 * len(vals) + 1, dtype=np.int64)
+        big[1::2] = vals
+        return big[1::2]
+    return np.array(vals, dtype=getattr(np, kind))
+
+
+def as_dense(arr, kind, rng):
+    """arr: float64 ndarray (1-, 2- or 3-dimensional) with exactly representable entries"""
+    arr = np.asarray(arr, dtype=np.float64)
+    if kind == "float32":
+        return arr.astype(np.float32)
+    if kind == "F-order":
+        return np.asfortranarray(arr)
+    if kind == "non-contiguous":
+        big = np.zeros(tuple(2 * d for d in arr.shape), dtype=np.float64)
+        sl = tuple(slice(rng.randrange(2), None, 2) for _ in arr.shape)
+        big[sl] = arr
+        return big[sl]
+    if kind == "list":
+        return arr.tolist()
+    if kind == "int-if-possible":
+        if np.all(np.isfinite(arr)) and np.all(arr == np.round(arr)):
+            return arr.astype(np.int64)
+        return arr
+    return arr.copy()
+
+
+def as_sparse(Ql, fmt, idt):
+    M = getattr(sp, fmt + "_matrix")(np.asarray(Ql, dtype=np.float64))
+    dt = np.int32 if idt == "int32" else np.int64
+    if fmt in ("csr", "csc"):
+        M.indices = M.indices.astype(dt)
+        M.indptr = M.indptr.astype(dt)
+    elif fmt == "coo":
+        M.row = M.row.astype(dt)
+        M.col = M.col.astype(dt)
+    return M
+
+
+def scalar_form(x, kind):
+    if kind == "np.float64":
+        return np.float64(x)
+    if kind == "np.float32":
+        return np.float32(x)
+    if kind == "0-d array":
+        return np.array(float(x))
+    return float(x)
+
+
+def int_form(x, kind):
+    if kind == "np.int64":
+        return np.int64(x)
+    if kind == "np.int32":
+        return np.int32(x)
+    if kind == "np.intp":
+        return np.intp(x)
+    return int(x)
+
+
+def vinit_form(v, kind):
+    if v is None:
+        return None
+    if kind == "list":
+        return [int(x) for x in v]
+    if kind == "tuple":
+        return tuple(float(x) for x in v)
+    if kind == "float32":
+        return np.array(v, dtype=np.float32)
+    if kind == "int64":
+        return np.array(v, dtype=np.int64)
+    if kind == "strided":
+        big = np.zeros(2 * len(v), dtype=np.float64)
+        big[::2] = v
+        return big[::2]
+    return np.array(v, dtype=np.float64)
+
+
+def pair_order(inst, order, rng):
+    pairs = [(s, a) for s in range(inst.n) for a in inst.feas[s]]
+    if order == "action-major":
+        pairs.sort(key=lambda p: (p[1], p[0]))
+    elif order == "reversed":
+        pairs.reverse()
+    elif order == "shuffled":
+        rng.shuffle(pairs)
+    return pairs
+
+
+def argument_forms(ctx):
+    """every legal way of handing the same problem to DiscreteDP / solve must give a correct answer"""
+    from quantecon.markov import DiscreteDP
+    rng = ctx.rng
+    ninst = ctx.n(5, 40)
+    combo = 0
+    dense_ctr = [0]
+    for it in range(ninst):
+        inst = gen_instance(rng, 4, 3, True)
+        if inst.n < 2 and it % 3:
+            inst = gen_instance(rng, 4, 3, True)
+        # data exactly representable in float32 too: integer rewards, rows k/den with den | 8, dyadic beta
+        vstar, _ = inst.vstar()
+        n, m = inst.n, inst.m
+        eps = rng.choice([0.5, 0.125, 2.0 ** -6])
+        v_init = None if rng.random() < 0.5 else [rng.randint(-4, 4) for _ in range(n)]
+        k = rng.choice([0, 1, 5])
+        for ikind in INDEX_KINDS:
+            for order in ORDERS:
+                combo += 1
+                akind = INDEX_KINDS[(combo * 5 + 3) % len(INDEX_KINDS)] if combo % 2 else ikind
+                pairs = pair_order(inst, order, rng)
+                s_idx = as_index([p[0] for p in pairs], ikind)
+                a_idx = as_index([p[1] for p in pairs], akind)
+                Rl = np.array([float(inst.R[s][a]) for s, a in pairs])
+                Ql = np.array([[float(q) for q in inst.Q[s][a]] for s, a in pairs]).reshape(len(pairs), n)
+                sparse = (combo % 3 == 0)
+                if sparse:
+                    fmt, idt = SPARSE_KINDS[combo % len(SPARSE_KINDS)]
+                    Qarg = as_sparse(Ql, fmt, idt)
+                    qdesc = "sparse:%s:%s" % (fmt, idt)
+                else:
+                    dense_ctr[0] += 1
+                    qk = DENSE_KINDS[dense_ctr[0] % len(DENSE_KINDS)]
+                    Qarg = as_dense(Ql, qk, rng)
+                    qdesc = "dense:" + qk
+                rk = DENSE_KINDS[(combo // 2) % len(DENSE_KINDS)]
+                Rarg = as_dense(Rl, rk, rng)
+                bkind = ["float", "np.float64", "np.float32", "0-d array"][combo % 4]
+                beta_arg = scalar_form(inst.beta, bkind)
+                if inst.beta == 0.0 and combo % 5 == 0:
+                    beta_arg, bkind = 0, "int"
+                desc = {"stream": "forms", "formulation": "sa", "s_indices": ikind, "a_indices": akind, "order": order,
+                        "Q": qdesc, "R": rk, "beta_form": bkind, "beta": inst.beta,
+                        "pairs": [list(p) for p in pairs],
+                        "R_prod": [[None if x is None else int(x) for x in row] for row in inst.R],
+                        "Q_prod": [[[str(q) for q in inst.Q[s][a]] for a in range(m)] for s in range(n)]}
+                ctx.count("forms:index=%s" % ikind)
+                ctx.count("forms:order=%s" % order)
+                ctx.count("forms:Q=%s" % qdesc)
+                try:
+                    ddp = DiscreteDP(Rarg, Qarg, beta_arg, s_idx, a_idx)
+                except Exception as e:
+                    ctx.spec_fail("forms_constructor_refuses_legal_input",
+                                  "DiscreteDP raised %s: %s" % (type(e).__name__, str(e)[:200]), desc)
+                    continue
+                solve_forms(ctx, inst, vstar, ddp, desc, combo, eps, v_init, k, sparse)
+        # product form in the various array forms
+        Rn = np.array([[(-np.inf if x is None else float(x)) for x in row] for row in inst.R]).reshape(n, m)
+        Qn = np.array([[[float(q) for q in inst.Q[s][a]] for a in range(m)] for s in range(n)]).reshape(n, m, n)
+        for rk in DENSE_KINDS:
+            combo += 1
+            qk = DENSE_KINDS[combo % len(DENSE_KINDS)]
+            bkind = ["float", "np.float64", "np.float32", "0-d array"][combo % 4]
+            desc = {"stream": "forms", "formulation": "product", "R": rk, "Q": qk, "beta_form": bkind, "beta": inst.beta,
+                    "R_prod": [[None if x is None else int(x) for x in row] for row in inst.R],
+                    "Q_prod": [[[str(q) for q in inst.Q[s][a]] for a in range(m)] for s in range(n)]}
+            ctx.count("forms:product:R=%s" % rk)
+            try:
+                ddp = DiscreteDP(as_dense(Rn, rk, rng), as_dense(Qn, qk, rng), scalar_form(inst.beta, bkind))
+            except Exception as e:
+                ctx.spec_fail("forms_constructor_refuses_legal_input",
+                              "DiscreteDP raised %s: %s" % (type(e).__name__, str(e)[:200]), desc)
+                continue
+            solve_forms(ctx, inst, vstar, ddp, desc, combo, eps, v_init, k, False)
+
+
+def solve_forms(ctx, inst, vstar, ddp, desc, combo, eps, v_init, k, sparse):
+    vk = ["float64", "list", "tuple", "float32", "int64", "strided"][combo % 6]
+    ek = ["float", "np.float64", "np.float32"][combo % 3]
+    ik = ["int", "np.int64", "np.int32", "np.intp"][combo % 4]
+    max_iter = None if combo % 4 else 400
+    for method in ("vi", "pi", "mpi", "lp"):
+        if method == "lp" and sparse:
+            continue
+        kw = {}
+        vi_arg = vinit_form(v_init, vk)
+        if vi_arg is not None:
+            kw["v_init"] = vi_arg
+        if max_iter is not None:
+            kw["max_iter"] = int_form(max_iter, ik)
+        if method in ("vi", "mpi"):
+            kw["epsilon"] = scalar_form(eps, ek)
+        if method == "mpi":
+            kw["k"] = int_form(k, ik)
+        rep = dict(desc, method=method, eps=eps, eps_form=ek, k=k, int_form=ik, max_iter=max_iter,
+                   v_init=v_init, v_init_form=vk)
+        try:
+            res = ddp.solve(method=method, **kw)
+        except Exception as e:
+            ctx.spec_fail("forms_solve_raises_on_legal_input",
+                          "solve(%s) raised %s: %s" % (method, type(e).__name__, str(e)[:200]), rep)
+            continue
+        cap = max_iter if max_iter is not None else (250 * inst.n if method == "lp" else 250)
+        rep.update(v=[float(x) for x in res.v], sigma=[int(x) for x in res.sigma], num_iter=int(res.num_iter))
+        ctx.count("forms:solved")
+        judge(ctx, inst, vstar, method, res.v, res.sigma, int(res.num_iter), cap, eps, rep, "forms_")
+
+
+def frozen(a):
+    a = np.asarray(a)
+    return (a.dtype.str, a.shape, a.tobytes())
+
+
+def object_arrays(ddp):
+    out = {}
+    for name in ("R", "Q", "s_indices", "a_indices", "a_indptr"):
+        x = getattr(ddp, name, None)
+        if x is None:
+            continue
+        if sp.issparse(x):
+            for part in ("data", "indices", "indptr"):
+                out["%s.%s" % (name, part)] = getattr(x, part)
+        else:
+            out[name] = x
+    return out
+
+
+def histories(ctx):
+    """several calls on ONE DiscreteDP; every array ever returned is kept, must stay bitwise what it was when
+    returned, must not share memory with another kept array, an input or the object's own arrays, and is
+    re-judged by the exact oracle after every later call"""
+    from quantecon.markov import DiscreteDP
+    rng = ctx.rng
+    nhist = ctx.n(18, 150)
+    for it in range(nhist):
+        inst = gen_instance(rng, 4, 3, it % 2 == 0)
+        if "float-data" in inst.tags:
+            continue
+        if not any(len(f) >= 2 for f in inst.feas):
+            inst = gen_instance(rng, 4, 3, True)
+        vstar, _ = inst.vstar()
+        n, m = inst.n, inst.m
+        formulation = ("prod", "sa", "sp")[it % 3]
+        spec = [f for f in np_forms(inst, rng) if f[0] == formulation][0][2]
+        form, Rin, Qin, s_in, a_in = spec
+        Qarg = sp.csr_matrix(Qin) if form == "sp" else Qin
+        inputs = {"R_in": Rin, "s_in": s_in, "a_in": a_in}
+        if form != "sp":
+            inputs["Q_in"] = Qin
+        inputs = {k_: v_ for k_, v_ in inputs.items() if v_ is not None}
+        if form == "prod":
+            ddp = DiscreteDP(Rin, Qarg, inst.beta)
+        else:
+            ddp = DiscreteDP(Rin, Qarg, inst.beta, s_in, a_in)
+        in_frozen = {k_: frozen(v_) for k_, v_ in inputs.items()}
+        obj_frozen = {k_: frozen(v_) for k_, v_ in object_arrays(ddp).items()}
+        kept = []       # dicts: name, arr, frozen, rejudge (callable on the current content) or None
+        log = []
+        base = {"stream": "history", "formulation": form, "beta": inst.beta,
+                "R_prod": [[None if x is None else int(x) for x in row] for row in inst.R],
+                "Q_prod": [[[str(q) for q in inst.Q[s][a]] for a in range(m)] for s in range(n)],
+                "pairs": None if s_in is None else [[int(a), int(b)] for a, b in zip(s_in, a_in)]}
+
+        def keep(name, arr, rejudge=None, explicit_out=False):
+            kept.append({"name": name, "arr": arr, "frozen": frozen(arr), "rejudge": rejudge, "out": explicit_out,
+                         "step": len(log)})
+
+        nops = rng.randint(5, 9)
+        for step in range(nops):
+            op = rng.choice(["solve", "solve", "solve", "greedy", "bellman", "evalpol", "mc"])
+            if step == 0:
+                op = "solve"
+            if op == "solve":
+                method = rng.choice(["vi", "pi", "mpi", "lp"])
+                if method == "lp" and form == "sp":
+                    method = "pi"
+                eps = rng.choice([4.0, 1.0, 0.125, 1e-3])
+                k = rng.choice([0, 1, 5, 20])
+                max_iter = rng.choice([None, None, 1, 2, 3])
+                v_init = rng.choice([None, [rng.randint(-9, 9) for _ in range(n)], [rng.choice([-50, 50]) * (s % 2) for s in range(n)]])
+                kw = {}
+                vin_arr = None
+                if v_init is not None:
+                    vin_arr = np.array(v_init, dtype=float)
+                    kw["v_init"] = vin_arr
+                if max_iter is not None:
+                    kw["max_iter"] = max_iter
+                if method in ("vi", "mpi"):
+                    kw["epsilon"] = eps
+                if method == "mpi":
+                    kw["k"] = k
+                res = ddp.solve(method=method, **kw)
+                cap = max_iter if max_iter is not None else (250 * n if method == "lp" else 250)
+                call = {"op": "solve", "method": method, "eps": eps, "k": k, "max_iter": max_iter, "v_init": v_init}
+                log.append(call)
+                num_iter = int(res.num_iter)
+
+                def rj(res=res, method=method, cap=cap, eps=eps, num_iter=num_iter, call=call, at=len(log)):
+                    rep = dict(base, calls=list(log), judged_call=at, judged=call,
+                               v=[float(x) for x in res.v], sigma=[int(x) for x in res.sigma], num_iter=num_iter)
+                    ok = judge(ctx, inst, vstar, method, res.v, res.sigma, num_iter, cap, eps, rep, "history_")
+                    try:
+                        P = res.mc.P
+                        P = np.asarray(P.toarray() if hasattr(P, "toarray") else P)
+                        if [[F(float(x)) for x in row] for row in P] != \
+                                [inst.Q[s][int(res.sigma[s])] for s in range(n)]:
+                            ctx.spec_fail("history_%s_mc_not_Q_sigma" % method,
+                                          "res.mc.P is not the chain of res.sigma (after %d later calls)" % (len(log) - at), rep)
+                            ok = False
+                    except (IndexError, ValueError):
+                        pass
+                    return ok
+                rj()
+                keep("call%d:%s.v" % (len(log), method), res.v, rj)
+                keep("call%d:%s.sigma" % (len(log), method), res.sigma, None)
+                P = res.mc.P
+                if sp.issparse(P):
+                    keep("call%d:%s.mc.P.data" % (len(log), method), P.data)
+                else:
+                    keep("call%d:%s.mc.P" % (len(log), method), P)
+                if vin_arr is not None:
+                    if frozen(vin_arr) != frozen(np.array(v_init, dtype=float)):
+                        ctx.spec_fail("history_v_init_modified", "solve(%s) modified the caller's v_init" % method,
+                                      dict(base, calls=list(log)))
+            elif op == "greedy":
+                v = [rng.randint(-9, 9) for _ in range(n)]
+                use_out = rng.random() < 0.3
+                out = np.empty(n, dtype=int) if use_out else None
+                sig = ddp.compute_greedy(np.array(v, dtype=float), sigma=out)
+                log.append({"op": "compute_greedy", "v": v, "own_out": use_out})
+                ex = inst.T(v)
+                exact_ok = F(inst.beta).denominator <= 4
+                for s in range(n):
+                    a = int(sig[s])
+                    if a not in inst.feas[s] or (exact_ok and inst.qv(s, a, v) != ex[s]):
+                        ctx.spec_fail("history_compute_greedy", "greedy action is infeasible or not maximal",
+                                      dict(base, calls=list(log), sigma=[int(x) for x in sig]))
+                        break
+                keep("call%d:greedy" % len(log), sig, None, explicit_out=use_out)
+            elif op == "bellman":
+                v = [rng.randint(-9, 9) for _ in range(n)]
+                use_out = rng.random() < 0.3
+                Tv_out = np.empty(n) if use_out else None
+                sg_out = np.empty(n, dtype=int) if rng.random() < 0.5 else None
+                Tv = ddp.bellman_operator(np.array(v, dtype=float), Tv=Tv_out, sigma=sg_out)
+                log.append({"op": "bellman_operator", "v": v, "own_Tv": use_out, "own_sigma": sg_out is not None})
+                ex = inst.T(v)
+                if dist([float(x) for x in Tv], ex) > F(1, 10 ** 8):
+                    ctx.spec_fail("history_bellman_operator", "T v is wrong", dict(base, calls=list(log)))
+                keep("call%d:Tv" % len(log), Tv, None, explicit_out=use_out)
+                if sg_out is not None:
+                    keep("call%d:bellman.sigma" % len(log), sg_out, None, explicit_out=True)
+            elif op == "evalpol":
+                pol = [rng.choice(f) for f in inst.feas]
+                vp = ddp.evaluate_policy(np.array(pol))
+                log.append({"op": "evaluate_policy", "sigma": pol})
+                exv = inst.eval(pol)
+                if dist([float(x) for x in vp], exv) > F(1, 10 ** 9) * (1 + max(abs(x) for x in exv)):
+                    ctx.spec_fail("history_evaluate_policy", "evaluate_policy is wrong", dict(base, calls=list(log)))
+                keep("call%d:v_sigma" % len(log), vp)
+            else:
+                pol = [rng.choice(f) for f in inst.feas]
+                try:
+                    mc = ddp.controlled_mc(np.array(pol))
+                except ValueError:
+                    continue
+                log.append({"op": "controlled_mc", "sigma": pol})
+                P = mc.P
+                Pd = np.asarray(P.toarray() if hasattr(P, "toarray") else P)
+                if [[F(float(x)) for x in row] for row in Pd] != [inst.Q[s][pol[s]] for s in range(n)]:
+                    ctx.spec_fail("history_controlled_mc", "controlled_mc(sigma).P is not Q_sigma", dict(base, calls=list(log)))
+                keep("call%d:mc.P" % len(log), P.data if sp.issparse(P) else P)
+            ctx.count("history:op=%s" % op)
+            # ---- after every call: nothing returned earlier, no input, no array of the object may have changed ----
+            rep = dict(base, calls=list(log))
+            for kk in kept:
+                if frozen(kk["arr"]) != kk["frozen"]:
+                    ctx.spec_fail("history_earlier_result_overwritten",
+                                  "%s (returned by call %d) was changed by a later call (now call %d)"
+                                  % (kk["name"], kk["step"], len(log)),
+                                  dict(rep, changed=kk["name"], now=np.asarray(kk["arr"]).tolist()))
+                    kk["frozen"] = frozen(kk["arr"])
+                if kk["rejudge"] is not None:
+                    kk["rejudge"]()
+            for name, arr in inputs.items():
+                if frozen(arr) != in_frozen[name]:
+                    ctx.spec_fail("history_input_modified", "the caller's %s was modified" % name, rep)
+                    in_frozen[name] = frozen(arr)
+            for name, arr in object_arrays(ddp).items():
+                if name not in obj_frozen or frozen(arr) != obj_frozen[name]:
+                    ctx.spec_fail("history_object_array_modified", "ddp.%s changed during the history" % name, rep)
+                    obj_frozen[name] = frozen(arr)
+            # ---- aliasing ----
+            for i in range(len(kept)):
+                for j in range(i + 1, len(kept)):
+                    if np.shares_memory(kept[i]["arr"], kept[j]["arr"]):
+                        ctx.spec_fail("history_results_share_memory",
+                                      "%s and %s share memory" % (kept[i]["name"], kept[j]["name"]), rep)
+                if kept[i]["out"]:
+                    continue
+                for name, arr in list(inputs.items()) + list(object_arrays(ddp).items()):
+                    if isinstance(arr, np.ndarray) and np.shares_memory(kept[i]["arr"], arr):
+                        ctx.spec_fail("history_result_aliases_%s" % ("input" if name.endswith("_in") else "object"),
+                                      "%s shares memory with %s" % (kept[i]["name"], name), rep)
+        ctx.count("history:objects")
+        ctx.count("history:kept-arrays", len(kept))
+
+
+
 def run(ctx):
     warnings.simplefilter("ignore")
     rng = ctx.rng
@@ -684,6 +1138,9 @@ def run(ctx):
                 cases.append(Case("C01 pi %s beta=1/2 maxiter=5 vinit=none" % f2[1], g, nontrivial=False,
                                   tag="err:no-action"))
                 ctx.count("err:no-feasible-action")
+
+    argument_forms(ctx)
+    histories(ctx)
 
     ctx.run_cases(cases)
     ctx.run_cases(spec_cases)
